@@ -436,6 +436,16 @@ class Mesh:
             for elem in marked_time:
                 self.refine_time(elem)
 
+            # Replace elements marked for space refinement that have been
+            # refined by the time refinemenent.
+            marked = marked_space
+            marked_space = []
+            for elem in marked:
+                if elem.children:
+                    marked_space.extend(elem.children)
+                else:
+                    marked_space.append(elem)
+
             marked_space.sort(key=lambda elem: elem.level_space)
             for elem in marked_space:
                 assert not elem.children
